@@ -2,5 +2,6 @@ SPECIFICATION Spec
 CONSTANTS
   MaxOrder = 4
   MaxDim = 3
+  HighOrders = {9}
   MaxSize = 36
 INVARIANT SpecOK
